@@ -140,12 +140,13 @@ theorem staleOp_triples :
   rw [normT_stale_out]
   decide +kernel
 
-/-- a source whose stored type is the variable `x0`: `expr.type in canon` is decided on the stored type (not a
-member), the annotated type is the followed one: the node gets `type B` but no `subtypeOf` -/
+/-- a source whose stored type is the variable `x0`, bound to `B` since the source was fixed: the type is followed first
+(repair of defect D30), so the node is annotated like any source of type `B` -/
 theorem staleSrc_triples :
     ((addExpr exGs {} root none (initGraph exGs {}) (.src 0 none (.var 0)) (some 7) false).toOption.map
       (fun p => (p.2, p.1.triples)))
-    = some (7, [(.b 7, .tf "type", .ns "B"), (root, .tf "containsType", .ns "B")]) := by
+    = some (7, [(.b 7, .tf "type", .ns "B"), (.b 7, .tf "subtypeOf", .ns "B"), (root, .tf "containsType", .ns "B"),
+        (root, .tf "containsType", .ns "A"), (.b 7, .tf "subtypeOf", .ns "A")]) := by
   simp only [addExpr_src, srcBody]
   rw [normT_stale_var]
   decide +kernel
